@@ -149,6 +149,19 @@ class LoopCtl:
         self.cont = []
 
 
+def pad_norm(total):
+    """x + max(c - x, 0) == max(c, x): the length of a list padded up to c elements"""
+    if isinstance(total, Lin):
+        for t, coeff in total.terms:
+            if coeff == 1 and isinstance(t, Op) and t.op == "max" and len(t.args) == 2 and Const(0) in t.args:
+                a = t.args[0] if t.args[1] == Const(0) else t.args[1]
+                rest = sub(total, t)
+                c = add(rest, a)
+                if is_int(c):
+                    return Op("max", c, rest)
+    return total
+
+
 def snap_items(snap, oid):
     return snap[0].get(oid, [])
 
@@ -644,6 +657,12 @@ class _ExprMixin:
             for x, y in ((a, b), (b, a)):
                 if is_const(x, str) and not isinstance(y, Const):
                     return Op("strmul", x, y)
+                lx = self.as_list(x)
+                if lx is not None and lx.concrete():
+                    if is_int(y):
+                        return self.alloc(ListObj(self.born_now(), list(lx.items) * max(y.v, 0), lx.typ))
+                    # [..] * n with a symbolic count: max(n, 0) copies of the known elements
+                    return self.alloc(ListObj(self.born_now(), [("v", Op("splat", Op("listrep", x, y)), TRUE)], lx.typ))
         return binop(op, a, b)
 
     def tuple_to_term(self, v):
@@ -709,6 +728,11 @@ class _ExprMixin:
     def cmp(self, op, a, b):
         if op in ("in", "notin"):
             b2 = self.simp(b)
+            if isinstance(b2, Const) and isinstance(b2.v, (tuple, list, frozenset)) and 0 < len(b2.v) <= 6 and not isinstance(a, Const) \
+                    and all(isinstance(x, (str, int, bytes)) for x in b2.v):
+                # x in ('a', 'b')  is  x == 'a' or x == 'b'
+                r = or_(*[compare("eq", a, Const(x)) for x in b2.v])
+                return r if op == "in" else not_(r)
             if isinstance(b2, Op) and b2.op == "range" and is_int(a) and all(is_int(x) for x in b2.args):
                 r = a.v in range(*[x.v for x in b2.args])
                 return Const(r if op == "in" else not r)
@@ -2239,7 +2263,11 @@ class _ExtMixin:
                 total = Const(0)
                 for it in o.items:
                     if it[0] == "v" and isinstance(it[1], Op) and it[1].op == "splat":
-                        ln = Op("len", it[1].args[0])
+                        inner = it[1].args[0]
+                        if isinstance(inner, Op) and inner.op == "listrep":
+                            ln = mul(self.x_len([inner.args[0]], {}, None), Op("max", inner.args[1], Const(0)))
+                        else:
+                            ln = Op("len", inner)
                         total = add(total, ln if it[2] == TRUE else ite(it[2], ln, Const(0)))
                     elif it[0] == "v" and isinstance(it[1], Op) and it[1].op.startswith("listmut:"):
                         return Op("len", v)
@@ -2256,7 +2284,7 @@ class _ExtMixin:
                             total = add(total, Op("count", Const(L.lid), g))
                     else:
                         total = add(total, Op("b2i", it[2]))
-                return total
+                return pad_norm(total)
         if isinstance(v, Op) and v.op == "getslice" and len(v.args) == 3 and v.args[1] != NONE and v.args[2] != NONE:
             return Op("len", v)
         return Op("len", v)
